@@ -14,5 +14,5 @@ Extraction "model.ml"
   iset_new iset_len iset_get iset_find_full iset_find_index iset_find imap_new imap_find
   cov_new cov_step scov_step smap_as_vec bcov_new bcov_step bcov_regions sbcov_new sbcov_step sb_get_region sb_get_chrom smap_get
   (* text *) show_N show_Z parse_uint parse_int show_grange pretty_show show_bed show_npeak show_bpeak show_bgraph
-  parse_grange parse_bed parse_npeak parse_bpeak parse_bgraph score_try_from p_score
+  parse_grange parse_bed parse_npeak parse_bpeak parse_bgraph score_try_from score_from_str p_score
   reader_items write_record bytes_eqb.
